@@ -5,7 +5,7 @@
     (instance obligations, vm_compute).  The FGD grammar itself is not modelled (search only). *)
 From Coq Require Import List NArith Arith Bool String.
 From SV Require Import Fmt.LongString Fmt.LongStringProofs Fmt.FgdBin Fmt.FgdBinProofs SM.LazyDb SM.LazyDbProofs.
-From SV Require Import Fmt.FgdBinEnt Fmt.FgdBinEntProofs.
+From SV Require Import Fmt.FgdBinEnt Fmt.FgdBinEntProofs Fmt.FgdLine Fmt.FgdLineProofs.
 From SV Require Import Gen.FgdConsts_gen.
 Import ListNotations.
 Open Scope N_scope.
@@ -94,6 +94,128 @@ Example c16_hypotheses_satisfiable :
   /\ cfg_ok {| limit := 1000; min_nl := 128; empty_quotes := true; cut_guard := true |} = true
   /\ stops [(110, 10)] [SPACE; 58; SPACE; 49; LF] = true.
 Proof. repeat split. Qed.
+
+(** * The lines that carry the fields (token level, Fmt/FgdLine.v) *)
+(** [line_cfg]: the decisive branches of KVDef.export / EntityDef.export read from the source ([gen_line_cfg]);
+    the hypotheses on [vt_lookup], [io_lookup], [rt_lookup], [undec] are checked on the real tables (data obligations),
+    [tags_wf] = the tags are in the normal form read_tags produces and pass validate_tags. *)
+Definition line_cfg_ok (c : line_cfg) : bool :=
+  (colons_before_desc_without_default c =? 2)%nat && bool_default_filled c && res_block_if_defined c.
+
+(** Keyvalue lines without a value list: whatever the tags, readonly / report, the split of display name and
+    description into '+' sections, with or without default and description, KVDef._parse reads back the same name,
+    tags, type, flags, display name, default and description and stops at the end of the line. *)
+Theorem c16_kv_line_roundtrip :
+  forall (tag_norm : str -> str) (tags_valid : list str -> bool) (vt : Type) (vt_text : vt -> str) (vt_lookup : str -> option (bool * vt))
+         (vt_is_bool vt_is_flags vt_is_choices : vt -> bool) (dec : N -> str) (undec : str -> option N) (pow2 : N -> bool) (cfg : line_cfg),
+  (forall v, vt_lookup (vt_text v) = Some (false, v)) -> colons_before_desc_without_default cfg = 2%nat ->
+  forall (label custom : bool) (k : kvline vt) (rest : list tok),
+  tags_wf tag_norm tags_valid (l_tags vt k) -> vt_is_flags (l_type vt k) = false -> vt_is_choices (l_type vt k) = false ->
+  l_list vt k = NoList -> l_disp vt k <> [] ->
+  yes_no vt vt_is_bool (l_type vt k) (default_written vt vt_is_bool cfg k) = default_written vt vt_is_bool cfg k ->
+  ends_line rest ->
+  kv_parse tag_norm tags_valid vt vt_lookup vt_is_bool vt_is_flags vt_is_choices dec undec pow2 (l_name vt k)
+    (List.tl (kv_toks vt vt_text vt_is_bool vt_is_flags dec cfg label custom k) ++ rest)
+  = Some (kv_norm vt vt_is_bool cfg custom k NoList, rest).
+Proof. exact kv_plain_roundtrip. Qed.
+
+(** Choices keyvalues with their value list (value, display name in any split, tags per item) *)
+Theorem c16_kv_choices_roundtrip :
+  forall (tag_norm : str -> str) (tags_valid : list str -> bool) (vt : Type) (vt_text : vt -> str) (vt_lookup : str -> option (bool * vt))
+         (vt_is_bool vt_is_flags vt_is_choices : vt -> bool) (dec : N -> str) (undec : str -> option N) (pow2 : N -> bool) (cfg : line_cfg),
+  (forall v, vt_lookup (vt_text v) = Some (false, v)) -> colons_before_desc_without_default cfg = 2%nat ->
+  forall (label custom : bool) (k : kvline vt) (items : list (str * list str * list str)) (rest : list tok),
+  tags_wf tag_norm tags_valid (l_tags vt k) -> vt_is_flags (l_type vt k) = false -> vt_is_choices (l_type vt k) = true ->
+  l_list vt k = Choices items -> Forall (ciwf tag_norm tags_valid) items -> l_disp vt k <> [] ->
+  yes_no vt vt_is_bool (l_type vt k) (default_written vt vt_is_bool cfg k) = default_written vt vt_is_bool cfg k ->
+  kv_parse tag_norm tags_valid vt vt_lookup vt_is_bool vt_is_flags vt_is_choices dec undec pow2 (l_name vt k)
+    (List.tl (kv_toks vt vt_text vt_is_bool vt_is_flags dec cfg label custom k) ++ rest)
+  = Some (kv_norm vt vt_is_bool cfg custom k (Choices (map (cires custom) items)), TNl :: rest).
+Proof. exact kv_choices_roundtrip. Qed.
+
+(** Spawnflags keyvalues: every item with its value, name (the generated `[n]` label removed again), default and tags,
+    for names that do not start with a blank and — when no labels are written — do not themselves start with `[n]` *)
+Theorem c16_kv_flags_roundtrip :
+  forall (tag_norm : str -> str) (tags_valid : list str -> bool) (vt : Type) (vt_text : vt -> str) (vt_lookup : str -> option (bool * vt))
+         (vt_is_bool vt_is_flags vt_is_choices : vt -> bool) (dec : N -> str) (undec : str -> option N) (pow2 : N -> bool) (cfg : line_cfg),
+  (forall v, vt_lookup (vt_text v) = Some (false, v)) -> (forall n, undec (dec n) = Some n) ->
+  colons_before_desc_without_default cfg = 2%nat ->
+  forall (label custom : bool) (k : kvline vt) (items : list (N * list str * bool * list str)) (rest : list tok),
+  tags_wf tag_norm tags_valid (l_tags vt k) -> vt_is_flags (l_type vt k) = true -> vt_is_choices (l_type vt k) = false ->
+  l_list vt k = Flags items -> Forall (fiwf tag_norm tags_valid dec pow2 label) items ->
+  default_written vt vt_is_bool cfg k = [] -> List.concat (l_desc vt k) = [] ->
+  kv_parse tag_norm tags_valid vt vt_lookup vt_is_bool vt_is_flags vt_is_choices dec undec pow2 (l_name vt k)
+    (List.tl (kv_toks vt vt_text vt_is_bool vt_is_flags dec cfg label custom k) ++ rest)
+  = Some (mk_kvl vt (l_name vt k) (seen_tags custom (l_tags vt k)) (l_type vt k) (l_ro vt k) (l_report vt k)
+                 [l_name vt k] [] [[]] (Flags (map (fires custom) items)), TNl :: rest).
+Proof. exact kv_flags_roundtrip. Qed.
+
+(** input / output lines: name, tags, the decayed type, the description *)
+Theorem c16_io_line_roundtrip :
+  forall (tag_norm : str -> str) (tags_valid : list str -> bool) (vt : Type) (io_text : vt -> str) (io_lookup : str -> option vt)
+         (io_decay : vt -> vt),
+  (forall v, io_lookup (io_text v) = Some (io_decay v)) ->
+  forall (custom : bool) (o : ioline vt) (rest : list tok),
+  tags_wf tag_norm tags_valid (o_tags vt o) -> ends_line rest ->
+  io_parse tag_norm tags_valid vt io_lookup (io_toks vt io_text custom o ++ rest)
+  = Some (mk_iol vt (o_name vt o) (seen_tags custom (o_tags vt o)) (io_decay (o_type vt o)) [List.concat (o_desc vt o)], rest).
+Proof. exact io_roundtrip. Qed.
+
+(** @resources (extended syntax): undefined stays undefined, a defined list — EMPTY OR NOT — comes back as that list *)
+Theorem c16_resources_roundtrip :
+  forall (tag_norm : str -> str) (tags_valid : list str -> bool) (cfg : line_cfg),
+  colons_before_desc_without_default cfg = 2%nat ->
+  forall (rt : Type) (rt_text : rt -> str) (rt_lookup : str -> option rt),
+  (forall t, rt_lookup (rt_text t) = Some t) ->
+  forall (res : option (list (rt * str * list str))) (rest : list tok),
+  res_block_if_defined cfg = true ->
+  match res with Some l => Forall (riwf tag_norm tags_valid rt) l | None => True end ->
+  res_read tag_norm tags_valid rt rt_lookup (res_toks cfg rt rt_text true res ++ TBrClose :: rest)
+  = Some (res, match res with Some _ => TNl :: TBrClose :: rest | None => TBrClose :: rest end).
+Proof. exact res_roundtrip. Qed.
+
+(** One concrete instance (non-vacuity, and the refutations of the other writer branches). *)
+Inductive xvt := XString | XBool | XFlags | XChoices.
+Definition x_text (v : xvt) : str := match v with XString => [115] | XBool => [98] | XFlags => [102] | XChoices => [99] end.
+Definition x_lookup (s : str) : option (bool * xvt) :=
+  match s with [115] => Some (false, XString) | [98] => Some (false, XBool) | [102] => Some (false, XFlags) | [99] => Some (false, XChoices) | _ => None end.
+Definition x_bool (v : xvt) := match v with XBool => true | _ => false end.
+Definition x_flags (v : xvt) := match v with XFlags => true | _ => false end.
+Definition x_choices (v : xvt) := match v with XChoices => true | _ => false end.
+Definition x_dec (n : N) : str := repeat 49 (N.to_nat n).      (* unary *)
+Definition x_undec (s : str) : option N := Some (N.of_nat (List.length s)).
+Definition x_cfg (colons : nat) (res_defined : bool) : line_cfg :=
+  {| colons_before_desc_without_default := colons; bool_default_filled := true; res_block_if_defined := res_defined |}.
+Definition x_kv : kvline xvt :=   (* key[A, +B](s) readonly : "di" + "sp" : : "de" + "sc"  — no default *)
+  mk_kvl xvt [107] [[65]; [43; 66]] XString true false [[100; 105]; [115; 112]] [] [[100; 101]; [115; 99]] NoList.
+Definition x_parse (colons : nat) : option (kvline xvt * list tok) :=
+  kv_parse (fun t => t) (fun _ => true) xvt x_lookup x_bool x_flags x_choices x_dec x_undec (fun _ => true) [107]
+    (List.tl (kv_toks xvt x_text x_bool x_flags x_dec (x_cfg colons true) true true x_kv) ++ [TStr [110]]).
+Example c16_kv_line_example :
+  x_parse 2 = Some (mk_kvl xvt [107] [[65]; [43; 66]] XString true false [[100; 105; 115; 112]] [] [[100; 101; 115; 99]] NoList, [TStr [110]])
+  /\ (forall v, x_lookup (x_text v) = Some (false, v)) /\ (forall n, x_undec (x_dec n) = Some n).
+Proof.
+  split; [vm_compute; reflexivity|]. split; [intros []; reflexivity|].
+  intros n. unfold x_undec, x_dec. rewrite repeat_length, N2Nat.id. reflexivity.
+Qed.
+(** with a single ':' before the description of a keyvalue without default, the description is read as the default *)
+Example c16_one_colon_refuted :
+  x_parse 1 = Some (mk_kvl xvt [107] [[65]; [43; 66]] XString true false [[100; 105; 115; 112]] [100; 101; 115; 99] [[]] NoList, [TStr [110]]).
+Proof. vm_compute. reflexivity. Qed.
+(** when the @resources block is only written for a non-empty list, an explicitly empty list comes back undefined *)
+Definition x_res_read (res_defined : bool) (res : option (list (N * str * list str))) :=
+  res_read (fun t => t) (fun _ => true) N (fun s => match s with [c] => Some c | _ => None end)
+    (res_toks (x_cfg 2 res_defined) N (fun t => [t]) true res ++ [TBrClose]).
+Example c16_empty_resources_refuted :
+  x_res_read false (Some []) = Some (None, [TBrClose])
+  /\ x_res_read true (Some []) = Some (Some [], [TNl; TBrClose])
+  /\ x_res_read true (Some [(5, [109], [[65]]); (6, [110], [])]) = Some (Some [(5, [109], [[65]]); (6, [110], [])], [TNl; TBrClose]).
+Proof. repeat split; vm_compute; reflexivity. Qed.
+Definition empty_resources_need_block : bool :=
+  match x_res_read false (Some []), x_res_read true (Some []) with
+  | Some (None, _), Some (Some [], _) => true
+  | _, _ => false
+  end.
 
 (** * Binary database: tables and bit packings *)
 (** VALUE_TYPE_ORDER / FILE_TYPE_ORDER: the index written for an enum member reads back as that member
